@@ -181,6 +181,10 @@ pub fn cmd_gen_fuzz_corpus(args: &[String]) -> i32 {
         for (sel, payload) in cases {
             write("fz_untrusted", &[vec![sel], payload].concat());
         }
+        let ck = props::c15::chosen_k().new_tree(&mut runner).unwrap().current();
+        write("fz_untrusted", &[vec![16u8], ck.a[0].clone(), ck.a[1].clone(), ck.a[2].clone(), ck.a[3].clone()].concat());
+        write("fz_untrusted", &[vec![17u8], w.clone()].concat());
+        write("fz_untrusted", &[vec![18u8, 1], e.clone(), e.clone()].concat());
         // fz_verify: pk(32) sig(64) flags(1) ctxlen(1) ctx msg
         let rq = props::c09::strategy().new_tree(&mut runner).unwrap().current();
         let mut b = rq.a[0].clone();
